@@ -77,6 +77,27 @@ func cbcRaw(key, iv, data []byte) []byte {
 	return out
 }
 
+// ctrTerm: body[i] = plain[i] XOR E(key, iv + i/16)[i%16] with a 128-bit big-endian counter (E = one AES block)
+func ctrTerm(key, iv, plain []byte) []byte {
+	blk, _ := aes.NewCipher(key)
+	ctr := append([]byte{}, iv...)
+	out := make([]byte, len(plain))
+	var ks [16]byte
+	for i := range plain {
+		if i%16 == 0 {
+			blk.Encrypt(ks[:], ctr)
+			for j := 15; j >= 0; j-- {
+				ctr[j]++
+				if ctr[j] != 0 {
+					break
+				}
+			}
+		}
+		out[i] = plain[i] ^ ks[i%16]
+	}
+	return out
+}
+
 // evp: D1 = md5(secret.salt), D_{j+1} = md5(D_j.secret.salt); key = D1.D2, iv = D3
 func evp(secret, salt []byte) (key, iv []byte) {
 	var d []byte
@@ -955,6 +976,38 @@ func runC09(c *core.Case, st *core.CaseStats, rep func(fn, kind string, in, exp,
 		if guard("DecryptStreamTo", in, func() {
 			r := &chunkReader{data: append([]byte{}, msg...), pre: pre, rest: rest, eofWithData: eof == "with_data"}
 			err = cryptz.DecryptStreamTo(&dec, r, secret)
+		}) {
+			if err != nil || !bytes.Equal(dec.buf.Bytes(), plain) {
+				rep("DecryptStreamTo", "value", in, "round trip for every chunking the io.Reader contract allows", fmt.Sprint(err, " ", dec.buf.Len()))
+			}
+		}
+	case "streamshape":
+		pc := core.RawInts(c.S)
+		body, rest, eof := argI(c, 0), argI(c, 1), argS(c, 2)
+		plain, secret := rb(body), rb(9)
+		in := map[string]interface{}{"body": body, "plain_reads": pc, "then": rest, "eof": eof}
+		st.Nontrivial++
+		var enc chunkWriter
+		var err error
+		if !guard("EncryptStreamTo", in, func() {
+			err = cryptz.EncryptStreamTo(&enc, &chunkReader{data: append([]byte{}, plain...), pre: pc, rest: rest, eofWithData: eof == "with_data"}, secret)
+		}) {
+			return
+		}
+		msg := enc.buf.Bytes()
+		if err != nil || len(msg) != 16+body || string(msg[:8]) != "Salted__" {
+			rep("EncryptStreamTo", "value", in, fmt.Sprintf("Salted__ + salt + %d bytes", body), fmt.Sprint(len(msg), err))
+			return
+		}
+		// the body by the specification's term: plain XOR E(key, iv + block number), byte position by byte position
+		key, iv := evp(secret, msg[8:16])
+		if want := ctrTerm(key, iv, plain); !bytes.Equal(msg[16:], want) {
+			rep("EncryptStreamTo", "value", in, map[string]interface{}{"ctr_body": want}, msg[16:])
+			return
+		}
+		var dec chunkWriter
+		if guard("DecryptStreamTo", in, func() {
+			err = cryptz.DecryptStreamTo(&dec, &chunkReader{data: append([]byte{}, msg...), pre: append([]int{16}, pc...), rest: rest, eofWithData: eof == "with_data"}, secret)
 		}) {
 			if err != nil || !bytes.Equal(dec.buf.Bytes(), plain) {
 				rep("DecryptStreamTo", "value", in, "round trip for every chunking the io.Reader contract allows", fmt.Sprint(err, " ", dec.buf.Len()))
